@@ -2,5 +2,7 @@
 export VERIF_ROOT="${VERIF_ROOT:-$(cd "$(dirname "${BASH_SOURCE[0]}")/.." && pwd)}"
 export GOFLAGS=-mod=mod GOPROXY=off GOSUMDB=off GOTOOLCHAIN=local CGO_ENABLED=0
 export GOCACHE="${VERIF_GOCACHE:-/verif/build/gocache}"
+# overlay builds that replace module-cache files would otherwise poison the go command's module index (keyed by directory only)
+export GODEBUG=goindex=0
 export REPO="${VERIF_REPO:-/repo}"
 mkdir -p "$VERIF_ROOT/build" "$VERIF_ROOT/evidence" "$VERIF_ROOT/replays" "$GOCACHE"
